@@ -91,7 +91,10 @@ def _drive(ctx, vecs, tag, extra=(), seed=None):
     if summ["runs"] != len(vecs):
         raise vlib.ToolError("vconnect read %d of %d vectors" % (summ["runs"], len(vecs)))
     if summ["leftover_accepts"]:
-        raise vlib.ToolError("%d connections arrived outside any call: observations polluted" % summ["leftover_accepts"])
+        # arrivals after a call are attributed to that call by the driver (and judged); only connections that
+        # were there before the first call cannot belong to any vector
+        raise vlib.ToolError("%d connections arrived before the first call: not attributable to any vector" %
+                             summ["leftover_accepts"])
     return summ, tfile
 
 
@@ -174,7 +177,7 @@ def run(ctx):
         total_steps += summ["steps"]
         sample_runs = sample_runs or runs
         ctx.cov.setdefault("driver", []).append({k: summ[k] for k in (
-            "steps", "mismatches", "skipped", "by_svc", "ok_results", "panics", "env")})
+            "steps", "mismatches", "skipped", "by_svc", "ok_results", "panics", "late_accepts_attributed", "env")})
     if ctx.cov["port_precedence_observed"]["set_port_wins"]:
         print("DRIFT spec=Connect note=set_port-now-overrides-the-host-string-port (allowed by C19, differs from the "
               "pinned code)", flush=True)
@@ -201,7 +204,8 @@ def run(ctx):
         "outside the ephemeral range that refused a probe stay closed; 255.255.255.255 fails fast with a different "
         "error than 'refused' (calibrated per run, the error identity is compared through that calibration)",
         "contact with a closed/unreachable address is not observable; 'no later address contacted' is observed on the "
-        "live listeners' accept queues (drained and counted around every call)",
+        "live listeners' accept queues (drained and counted around every call; a connection that arrives after its call "
+        "returned is attributed to that call and judged, the TLS servers count their own accepts)",
         "the default (getaddrinfo) resolver is exercised for 'localhost' only; certificate validation itself is the TLS "
         "library's; certificates are generated by rcgen per run; rustls 0.20-0.22 and native-tls connectors not driven",
         "payload echo through the TLS stream is differential (seeded random payloads, written == read back), not modelled",
